@@ -1,12 +1,14 @@
 /-
   Lemmas for property C17 (Tranp/Props/C17.lean): the folder `execImpl` against CPython's `evalPy`.
 
-  Shape of the argument.  `Good R r v'` says: the folder's result `r` is a value similar to CPython's `v'`, or an error in
-  the class `R`.  `sound_core` proves `Good R (execImpl …) v'` whenever `evalPy … = ok v'`, by induction on the fuel
+  Shape of the argument.  `Good m R r v'` says: the folder's result `r` is a value similar to CPython's `v'`, or an error in
+  the class `R`.  `sound_core` proves `Good m R (execImpl …) v'` whenever `evalPy … = ok v'`, by induction on the fuel
   (every recursive call of `execImpl` spends one unit), for every mode that cuts out H1, H2, H3, H5a and every `R` that
   contains the refusals (plus, when H4 / H5b are not cut out, the two wrapped Python errors they let through).
 -/
 import Tranp.Model.Evaluator
+import Tranp.Lemmas.Escape
+import Tranp.Lemmas.PyInt
 
 namespace Tranp.Evaluator
 open Tranp Tranp.Generated.EvalOps
@@ -22,12 +24,12 @@ def Refusal : Err → Prop
   | _ => True
 
 /-- the folder's result against CPython's value `v'`: a similar value, or an error of class `R`. -/
-def Good (R : Err → Prop) (r : Except Err (V F)) (v' : V F) : Prop :=
+def Good (m : Mode) (R : Err → Prop) (r : Except Err (V F)) (v' : V F) : Prop :=
   match r with
-  | .ok v => Sim v v'
+  | .ok v => Sim m v v'
   | .error er => R er
 
-theorem Good.mono {R R' : Err → Prop} (h : ∀ er, R er → R' er) {r : Except Err (V F)} {v' : V F} (hg : Good R r v') : Good R' r v' := by
+theorem Good.mono {m : Mode} {R R' : Err → Prop} (h : ∀ er, R er → R' er) {r : Except Err (V F)} {v' : V F} (hg : Good m R r v') : Good m R' r v' := by
   cases r with
   | ok v => exact hg
   | error er => exact h er hg
@@ -71,11 +73,6 @@ theorem quoted_cat {a b ca cb : Str} (ha : Quoted a ca) (hb : Quoted b cb) : Quo
   refine ⟨q, q, hq, hq, ?_⟩
   simp only [cat, ua, ub, List.append_assoc]
 
-theorem not_sim_str {s c : Str} (h : unq s ≠ c) : ¬ Sim (F := F) (.str s) (.str c) := by
-  intro hs
-  cases hs with
-  | str hq => exact h (quoted_unq hq)
-
 theorem quoted_dq (c : Str) : Quoted ('"' :: (c ++ ['"'])) c := ⟨'"', '"', quote_dq, quote_dq, rfl⟩
 
 /-! ## the operator tables -/
@@ -92,23 +89,32 @@ theorem pyOp_cases {op : Str} {k : BinKind} (h : pyOpTable.lookup op = some k) :
 
 /-! ## one fold step -/
 
-theorem step_cat (ops : FloatOps F) {a b ca cb : Str} (ha : Quoted a ca) (hb : Quoted b cb) :
-    Good Refusal (step ops ['+'] (.str a) (.str b)) (.str (ca ++ cb)) := by
-  by_cases h : (allowString a && allowString b) = true
-  · by_cases hj : joinsEscape (unq a) (unq b) = true
-    · simp [step, h, catSafe, hj, Except.map, Good, Refusal]
-    · simp [step, h, catSafe, hj, Except.map, Good]
-      exact Sim.str (quoted_cat ha hb)
-  · simp [step, h, Good, Refusal]
+theorem step_cat (m : Mode) (ops : FloatOps F) {a b ca cb : Str} (ha : Sim (F := F) m (.str a) (.str ca)) (hb : Sim (F := F) m (.str b) (.str cb)) :
+    Good m Refusal (step ops ['+'] (.str a) (.str b)) (.str (ca ++ cb)) := by
+  cases ha with
+  | str hqa hda hna =>
+    cases hb with
+    | str hqb hdb hnb =>
+      by_cases h : (allowString a && allowString b) = true
+      · by_cases hj : joinsEscape (unq a) (unq b) = true
+        · simp [step, h, catSafe, hj, Except.map, Good, Refusal]
+        · simp [step, h, catSafe, hj, Except.map, Good]
+          refine Sim.str (quoted_cat hqa hqb) ?_ ?_
+          · rw [quoted_unq hqa, quoted_unq hqb] at hj
+            rw [join_decodes_core _ _ (by simpa using hj), hda, hdb]
+          · intro hm; exact contains_append_false (hna hm) (hnb hm)
+      · simp [step, h, Good, Refusal]
 
-theorem step_div_int (ops : FloatOps F) {a b : Int} {z : F} (h : ops.truediv a b = .ok z) :
-    Good Refusal (step ops ['/'] (.int a) (.int b)) (.float z) := by
+theorem step_div_int (m : Mode) (ops : FloatOps F) {a b : Int} {z : F} (h : ops.truediv a b = .ok z) :
+    Good m Refusal (step ops ['/'] (.int a) (.int b)) (.float z) := by
   simp [step, calcII, calcTable, List.lookup, h, liftPy, Except.map, Good]
   exact Sim.float z
 
 theorem step_good (m : Mode) (ops : FloatOps F) {op : Str} {l r l' r' c : V F}
-    (hl : Sim l l') (hr : Sim r r') (hp : pyBin m ops op l' r' = .ok c) :
-    Good Refusal (step ops op l r) c := by
+    (hl : Sim m l l') (hr : Sim m r r') (hp : pyBin m ops op l' r' = .ok c) :
+    Good m Refusal (step ops op l r) c := by
+  have hl' := hl
+  have hr' := hr
   unfold pyBin at hp
   split at hp
   · cases hp
@@ -117,8 +123,8 @@ theorem step_good (m : Mode) (ops : FloatOps F) {op : Str} {l r l' r' c : V F}
     cases hl <;> cases hr <;>
     simp [isArith, floatBin, intBin, strRepeat, Except.map, Except.bind, bind] at hp
     all_goals first
-      | (subst hp; exact step_cat ops (by assumption) (by assumption))
-      | (obtain ⟨z, hz, rfl⟩ := map_ok_inv' hp; exact step_div_int ops hz)
+      | (subst hp; exact step_cat m ops hl' hr')
+      | (obtain ⟨z, hz, rfl⟩ := map_ok_inv' hp; exact step_div_int m ops hz)
       | skip
     all_goals (repeat (split at hp <;> try (cases hp)))
     all_goals (try subst hp)
@@ -128,13 +134,16 @@ theorem step_good (m : Mode) (ops : FloatOps F) {op : Str} {l r l' r' c : V F}
 /-! ## casts -/
 
 /-- pointwise similarity of argument lists -/
-inductive SimL : List (V F) → List (V F) → Prop where
-  | nil : SimL [] []
-  | cons {a a' as as'} : Sim a a' → SimL as as' → SimL (a :: as) (a' :: as')
+inductive SimL (m : Mode) : List (V F) → List (V F) → Prop where
+  | nil : SimL m [] []
+  | cons {a a' as as'} : Sim m a a' → SimL m as as' → SimL m (a :: as) (a' :: as')
 
 theorem call_good (m : Mode) (ops : FloatOps F) (R : Err → Prop) (hR : ∀ er, Refusal er → R er)
+    (hE : m.noEsc = false → R (.fatal .valueError))
+    (hts : ∀ x, (ops.toStr x).contains '\\' = false)
+    (hparse : ∀ s, s.contains '\\' = true → ops.parse s = .error .valueError)
     {fn : Str} {args args' : List (V F)} {c : V F}
-    (ha : SimL args args') (hp : pyCall m ops fn args' = .ok c) : Good R (onFuncCall ops fn args) c := by
+    (ha : SimL m args args') (hp : pyCall m ops fn args' = .ok c) : Good m R (onFuncCall ops fn args) c := by
   cases ha with
   | nil => simp [onFuncCall, castArity, Good]; exact hR _ trivial
   | cons h1 hrest =>
@@ -149,15 +158,71 @@ theorem call_good (m : Mode) (ops : FloatOps F) (R : Err → Prop) (hR : ∀ er,
           · by_cases h3 : fn = ['s', 't', 'r']
             · exact Or.inr (Or.inr h3)
             · simp [pyCall, h1, h2, h3] at hp
-      rcases hfn with rfl | rfl | rfl <;> cases h1 <;> simp [pyCall, Except.map] at hp
-      all_goals (try (rename_i hq; have hu := quoted_unq hq))
-      all_goals (repeat (split at hp <;> try (cases hp)))
-      all_goals (try subst hp)
-      all_goals simp_all [onFuncCall, castArity, liftPy, Except.map, toFloat, Good, pyStrVal, pyStrOf]
-      all_goals first
-        | exact Sim.int _
-        | exact Sim.float _
-        | exact Sim.str (quoted_dq _)
+      cases h1 with
+      | int n =>
+        rcases hfn with rfl | rfl | rfl <;> simp [pyCall, Except.map] at hp
+        all_goals (repeat (split at hp <;> try (cases hp)))
+        all_goals (try subst hp)
+        all_goals simp_all [onFuncCall, castArity, liftPy, Except.map, toFloat, Good, pyStrVal, pyStrOf]
+        all_goals first
+          | exact Sim.int _
+          | exact Sim.float _
+          | exact Sim.str (quoted_dq _) (decode_id (showInt_no_bs _)) (fun _ => showInt_no_bs _)
+      | float x =>
+        have hs : Sim (F := F) m (.str ('"' :: (ops.toStr x ++ ['"']))) (.str (ops.toStr x)) :=
+          Sim.str (quoted_dq _) (decode_id (hts x)) (fun _ => hts x)
+        clear hts
+        rcases hfn with rfl | rfl | rfl <;> simp [pyCall, Except.map] at hp
+        all_goals (repeat (split at hp <;> try (cases hp)))
+        all_goals (try subst hp)
+        all_goals simp_all [onFuncCall, castArity, liftPy, Except.map, toFloat, Good, pyStrVal, pyStrOf]
+        all_goals first
+          | exact Sim.int _
+          | exact Sim.float _
+          | exact hs
+      | @str s raw c' hq hd hn =>
+        have hu := quoted_unq hq
+        have hraw : m.noEsc = true → c' = raw := fun hm => by rw [← hd, decode_id (hn hm)]
+        rcases hfn with rfl | rfl | rfl
+        · -- int('<text>')
+          simp only [pyCall, if_true] at hp
+          obtain ⟨n, hn', rfl⟩ := map_ok_inv' hp
+          simp only [onFuncCall, castArity, List.length_singleton, ne_eq, not_true_eq_false, if_false, if_true, hu]
+          cases hi : pyInt 10 raw with
+          | ok n' =>
+            have hid : c' = raw := by rw [← hd, decode_id (pyInt_no_bs hi)]
+            rw [hid, hi] at hn'
+            cases hn'
+            simp [liftPy, Except.map, Good]
+            exact Sim.int _
+          | error e =>
+            have he := pyInt_error hi
+            subst he
+            simp only [liftPy, Except.map, Good]
+            cases hm : m.noEsc with
+            | false => exact hE hm
+            | true => rw [hraw hm, hi] at hn'; cases hn'
+        · -- float('<text>')
+          simp only [pyCall] at hp
+          simp at hp
+          obtain ⟨x, hx, rfl⟩ := map_ok_inv' hp
+          simp only [onFuncCall, castArity, List.length_singleton, ne_eq, not_true_eq_false, if_false, hu]
+          simp
+          by_cases hb : raw.contains '\\' = true
+          · rw [hparse raw hb]
+            simp only [liftPy, Except.map, Good]
+            cases hm : m.noEsc with
+            | false => exact hE hm
+            | true => rw [hn hm] at hb; cases hb
+          · have hid : c' = raw := by rw [← hd, decode_id (by simpa using hb)]
+            rw [hid] at hx
+            simp [hx, liftPy, Except.map, Good]
+            exact Sim.float _
+        · -- str('<text>')
+          simp [pyCall, pyStrVal] at hp
+          subst hp
+          simp [onFuncCall, castArity, Good, hu]
+          exact Sim.str (quoted_dq _) hd hn
 
 /-! ## literals -/
 
@@ -187,7 +252,7 @@ theorem dropLast_getLast? {α : Type} {l : List α} {a : α} (h : l.getLast? = s
       simp [List.dropLast, ih h]
 
 theorem int_good (m : Mode) (R : Err → Prop) (h4 : m.lowerHex = false → R (.fatal .valueError)) {tok : Str} {n : Int}
-    (hp : pyIntLit m tok = .ok n) : Good (F := F) R (onInteger tok) (.int n) := by
+    (hp : pyIntLit m tok = .ok n) : Good (F := F) m R (onInteger tok) (.int n) := by
   unfold pyIntLit at hp
   split at hp
   · rename_i base hb
@@ -307,7 +372,7 @@ theorem onTerminal_err {op : Str} {er : Err} (h : onTerminal op = .error er) : e
 section
 variable (m : Mode) (ops : FloatOps F) (known : List Str) (venv : VEnv F) (R : Err → Prop) (f : Expr → Except Err (V F))
 variable (hR : ∀ er, Refusal er → R er)
-variable (ih : ∀ (e : Expr) (v' : V F), evalPy m ops known venv (toPy e) = .ok v' → Good R (f e) v')
+variable (ih : ∀ (e : Expr) (v' : V F), evalPy m ops known venv (toPy e) = .ok v' → Good m R (f e) v')
 include hR ih
 
 /-- the operands of a chain: an error among them is of class `R` -/
@@ -342,8 +407,8 @@ theorem rest_err : ∀ (rest : List (Str × Expr)) (a' v' : V F), pyFold m ops k
         | ok vs => rw [hm] at h; cases h
 
 /-- the fold over similar operands -/
-theorem rest_ok : ∀ (rest : List (Str × Expr)) (a a' v' : V F) (xs : List (Str × V F)), Sim a a' →
-    pyFold m ops known venv a' rest = .ok v' → mapRest f rest = .ok xs → Good R (opBinEach ops a xs) v' := by
+theorem rest_ok : ∀ (rest : List (Str × Expr)) (a a' v' : V F) (xs : List (Str × V F)), Sim m a a' →
+    pyFold m ops known venv a' rest = .ok v' → mapRest f rest = .ok xs → Good m R (opBinEach ops a xs) v' := by
   intro rest
   induction rest with
   | nil =>
@@ -397,7 +462,7 @@ theorem args_err : ∀ (args : List Expr) (vs' : List (V F)), evalPyArgs m ops k
 
 omit hR in
 theorem args_ok : ∀ (args : List Expr) (vs' vs : List (V F)), evalPyArgs m ops known venv (toPyArgs args) = .ok vs' →
-    mapArgs f args = .ok vs → SimL vs vs' := by
+    mapArgs f args = .ok vs → SimL m vs vs' := by
   intro args
   induction args with
   | nil =>
@@ -446,9 +511,12 @@ theorem Cons.lookup {m : Mode} {ops : FloatOps F} {env : Env} {venv : VEnv F} (h
     · exact ih h
 
 theorem sound_core (m : Mode) (ops : FloatOps F) (env : Env) (R : Err → Prop)
-    (hR : ∀ er, Refusal er → R er) (h4 : m.lowerHex = false → R (.fatal .valueError)) :
+    (hR : ∀ er, Refusal er → R er) (h4 : m.lowerHex = false → R (.fatal .valueError))
+    (hE : m.noEsc = false → R (.fatal .valueError))
+    (hts : ∀ x, (ops.toStr x).contains '\\' = false)
+    (hparse : ∀ s, s.contains '\\' = true → ops.parse s = .error .valueError) :
     ∀ (fuel : Nat) (e : Expr) (venv : VEnv F) (v' : V F), Cons m ops env venv →
-      evalPy m ops env.known venv (toPy e) = .ok v' → Good R (execImpl ops env fuel e) v' := by
+      evalPy m ops env.known venv (toPy e) = .ok v' → Good m R (execImpl ops env fuel e) v' := by
   intro fuel
   induction fuel with
   | zero =>
@@ -475,10 +543,21 @@ theorem sound_core (m : Mode) (ops : FloatOps F) (env : Env) (R : Err → Prop)
       unfold pyStrLit at hcs
       split at hcs
       · rename_i body hcl
-        cases hcs
-        split
-        · exact Sim.str (plain_quoted hcl)
-        · exact hR _ trivial
+        split at hcs
+        · cases hcs
+        · rename_i hne
+          split at hcs
+          · cases hcs
+            split
+            · refine Sim.str (plain_quoted hcl) rfl ?_
+              intro hm
+              cases hb : body.contains '\\' with
+              | false => rfl
+              | true =>
+                exfalso; apply hne
+                simp only [hm, hb, Bool.and_self]
+            · exact hR _ trivial
+          · cases hcs
       · rename_i body hcl
         rw [triple_not_allowed hcl]
         exact hR _ trivial
@@ -549,7 +628,7 @@ theorem sound_core (m : Mode) (ops : FloatOps F) (env : Env) (R : Err → Prop)
           exact args_err m ops env.known venv R _ (fun e v' h => ih e venv v' hc h) args vs' hvs er hm
         | ok vs =>
           have hs := args_ok m ops env.known venv R _ (fun e v' h => ih e venv v' hc h) args vs' vs hvs hm
-          exact call_good m ops R hR hs hcall
+          exact call_good m ops R hR hE hts hparse hs hcall
     | var key tyErr =>
       simp only [toPy, evalPy] at hp
       simp only [execImpl]
